@@ -614,11 +614,11 @@ def check_program(case, ctx):
 
 
 SUBCHECKS = [
-    SubCheck("programs", check_program, strategy=G.programs(max_sub=6, max_rxn=6), quick=280, thorough=0,
+    SubCheck("programs", check_program, strategy=G.programs(max_sub=6, max_rxn=6), quick=400, thorough=0,
              rule="1-6 reactions, 1-6 substances, all configurations per program",
              tolerances={"float_poly_coeff_rel": TOL_FLOAT_POLY, "float_eval_rel_sum_abs_terms": TOL_FLOAT_EVAL,
                          "exact_eval_rel": TOL_EXACT_EVAL}),
-    SubCheck("programs_large", check_program, strategy=G.programs(max_sub=8, max_rxn=8), quick=40, thorough=4000,
+    SubCheck("programs_large", check_program, strategy=G.programs(max_sub=8, max_rxn=8), quick=60, thorough=4000,
              rule="1-8 reactions, 1-8 substances, all configurations per program",
              tolerances={"float_poly_coeff_rel": TOL_FLOAT_POLY, "float_eval_rel_sum_abs_terms": TOL_FLOAT_EVAL,
                          "exact_eval_rel": TOL_EXACT_EVAL}),
